@@ -49,10 +49,35 @@ func (s *MutSite) DryGuarded() (bool, string) {
 	return false, ""
 }
 
+type cdgKey struct {
+	fb    *FuncBody
+	depth int
+}
+type cdgVal struct {
+	ok bool
+	by string
+}
+
+var cdgCache = map[*Prog]map[cdgKey]cdgVal{}
+var cdgFlows = map[*Prog]map[*FuncBody]*Flow{}
+
 func callersDryGuarded(p *Prog, fb *FuncBody, depth int) (bool, string) {
 	if fb == nil || fb.Obj == nil || fb.Obj.Exported() {
 		return false, "" // an exported function can be called from anywhere
 	}
+	if cdgCache[p] == nil {
+		cdgCache[p] = map[cdgKey]cdgVal{}
+		cdgFlows[p] = map[*FuncBody]*Flow{}
+	}
+	if v, ok := cdgCache[p][cdgKey{fb, depth}]; ok {
+		return v.ok, v.by
+	}
+	ok, by := callersDryGuardedUncached(p, fb, depth)
+	cdgCache[p][cdgKey{fb, depth}] = cdgVal{ok, by}
+	return ok, by
+}
+
+func callersDryGuardedUncached(p *Prog, fb *FuncBody, depth int) (bool, string) {
 	n, by := 0, ""
 	for _, cb := range p.Bodies() {
 		if cb.Pkg != fb.Pkg {
@@ -69,9 +94,13 @@ func callersDryGuarded(p *Prog, fb *FuncBody, depth int) (bool, string) {
 			continue
 		}
 		// a reference that is not a call (method value handed around) cannot be judged
-		f := NewFlow(p, cb, func(call *ast.CallExpr, obj types.Object) string { return "" })
-		f.NoInline = true
-		f.Run()
+		f := cdgFlows[p][cb]
+		if f == nil {
+			f = NewFlow(p, cb, func(call *ast.CallExpr, obj types.Object) string { return "" })
+			f.NoInline = true
+			f.Run()
+			cdgFlows[p][cb] = f
+		}
 		for _, call := range sites {
 			n++
 			ok, g := dryFact(f.At[call])
